@@ -9,7 +9,7 @@ import copy
 
 import numpy as np
 
-from ..core import Interp, Hooks, Violation, close, maxerr
+from ..core import Interp, Hooks, Violation, close, maxerr, Digester
 from ..models import dense
 from .base import Scenario, solo_events, callers_of
 
@@ -40,7 +40,8 @@ class PurityHooks(Hooks):
         self.rng0 = _rng_state()
 
     def on_dirty(self, it, tid):
-        self.snap[tid] = it.dig(it.store[tid])
+        # the caller wrote into an array it owns: everything that views that array legitimately shows the new content
+        self.snap = self._snapshot(it)
 
     def after(self, it, i, ev, out):
         fn = ev['fn']
@@ -82,7 +83,7 @@ class PurityHooks(Hooks):
         # repeat = first
         if ev.get('id'):
             b = out.brief(it.dig)
-            if tag.get('dup_of'):
+            if tag.get('dup_of') is not None and tag.get('dup_of'):
                 it.probe('check:repeat')
                 it.fault('dup')
                 first = self.first_brief.get(tag['dup_of'])
@@ -241,7 +242,7 @@ class PurityScenario(Scenario):
 
     must_hit = ['cache_eviction', 'shared_dft_shape', 'seeded_after_rng_fault', 'frozen_run', 'coldwarm_audit',
                 'fn:Plane.multiply', 'fn:propagate_dft', 'fn:propagate_fft', 'fn:Plane.fit_tilt', 'fn:dft2', 'fn:adc',
-                'fn:shot_noise', 'fn:s*', 'fn:collect_charge', 'fn:Wavefront.insert', 'path_pair', 'refused_inplace_call']
+                'fn:shot_noise', 'fn:s*', 'fn:collect_charge', 'fn:Wavefront.insert', 'path_pair', 'refused_inplace_call', 'used_vs_fresh']
     probe_names = must_hit + ['frozen_write_attempt', 'frozen_benign_write']
 
     # ---------------------------------------------------------------- world + shared pool
@@ -371,6 +372,12 @@ class PurityScenario(Scenario):
                 out.append(E('setattr', ['@' + wi, 'ptype', rng.choice(['tilt', 'transform', 'bogus'])], inplace=['@' + wi], t={'expect': 'refuse'}))
                 out.append(E('propagate_dft', ['@' + wi], {'pixelscale': ph['dx'], 'shape': [4, 5], 'oversample': 1}))
             if rng.random() < 0.3:
+                # second hop with the default shape (taken from the wavefront it is given), twice
+                hop = nid('w')
+                out.append(E('propagate_dft', ['@' + wi], {'pixelscale': ph['dx'], 'oversample': rng.choice([1, 2])}, id=hop))
+                out.append(E('propagate_dft', ['@' + wi], {'pixelscale': ph['dx'], 'oversample': 2}, t={'dup_of': None}))
+                out.append(E('attr', ['@' + wi, 'intensity']))
+            if rng.random() < 0.3:
                 back = nid('w')
                 out.append(E('propagate_dft', ['@' + wi], {'pixelscale': ph['dx'], 'shape': [rng.randint(3, 8)] * 2, 'oversample': 1}, id=back))
             return out
@@ -437,6 +444,44 @@ class PurityScenario(Scenario):
             w1 = nid('w')
             out.append(E('Plane.multiply', ['@' + p, '@W0'], id=w1))
             out.append(E('propagate_dft', ['@' + w1], {'pixelscale': ph['du'], 'shape': [5, 6], 'oversample': 2}))
+            return out
+
+        def refused_fit():
+            out = []
+            a, o = nid('a'), nid('o')
+            out.append(E('np.copy', ['@A'], id=a))
+            out.append({'c': c, 'fn': 'array', 'id': o, 'recipe': {'kind': 'integers', 'shape': 'S0', 'lo': -3, 'hi': 4, 'seed': sd(), 'dtype': 'int64'}})
+            p = nid('p')
+            out.append(E('Pupil', None, {'amplitude': '@' + a, 'opd': '@' + o, 'mask': '@MB', 'pixelscale': ph['dx'], 'focal_length': ph['f']}, id=p))
+            out.append(E('Plane.fit_tilt', ['@' + p], {'inplace': True}, inplace=['@' + p, '@' + o], t={'expect': 'refuse'}))
+            q = nid('q')
+            out.append(E('Plane.fit_tilt', ['@' + p], id=q))
+            w1 = nid('w')
+            out.append(E('Plane.multiply', ['@' + q, '@W0'], id=w1))
+            out.append(E('propagate_dft', ['@' + w1], {'pixelscale': ph['du'], 'shape': [6, 6], 'oversample': 1}))
+            return out
+
+        def used_vs_fresh():
+            """A plane that has been used, then had its arrays updated in place by their owner, answers like a fresh plane in the same state."""
+            out = []
+            a, o = nid('a'), nid('o')
+            out.append(E('np.copy', ['@A'], id=a))
+            out.append(E('np.copy', ['@O'], id=o))
+            kw = {'amplitude': '@' + a, 'opd': '@' + o, 'mask': '@' + rng.choice(['MB', 'MS']), 'pixelscale': ph['dx'], 'focal_length': ph['f']}
+            if rng.random() < 0.4:
+                del kw['mask']
+            p = nid('p')
+            out.append(E('Pupil', None, dict(kw), id=p))
+            out.append(E('Plane.multiply', ['@' + p, '@W0']))
+            out.append({'env': 'perturb', 'c': c, 'target': '@' + rng.choice([a, o]), 'seed': sd(), 'scale': None})
+            used = nid('w')
+            out.append(E('Plane.multiply', ['@' + p, '@W0'], id=used))
+            if 'mask' in kw:
+                fresh_p = nid('p')
+                out.append(E('Pupil', None, dict(kw), id=fresh_p))
+                fresh = nid('w')
+                out.append(E('Plane.multiply', ['@' + fresh_p, '@W0'], id=fresh))
+                out.append(E('check.same_state', ['@' + used, '@' + fresh], t={'oracle': 'C10.path'}))
             return out
 
         def path():
@@ -565,7 +610,7 @@ class PurityScenario(Scenario):
                 picks.append(E('Spectrum.asarray', ['@' + sp]))
             return picks
 
-        table = [(optics, 3), (fft, 2), (fit, 2), (fit_inplace, 1), (path, 1.5), (dft, 2), (zern, 1), (util, 1.5),
+        table = [(optics, 3), (fft, 2), (fit, 2), (fit_inplace, 1), (path, 1.5), (refused_fit, 0.7), (used_vs_fresh, 1.2), (dft, 2), (zern, 1), (util, 1.5),
                  (detector, 3), (spectra, 3)]
         return table
 
@@ -594,7 +639,7 @@ class PurityScenario(Scenario):
     @staticmethod
     def _dup_ok(ev):
         """A pure call on shared objects / literals only can be re-issued later (F6)."""
-        if ev.get('inplace') or ev['fn'] in ('array', 'setattr', 'check.same_image', 'np.copy', 'np.add', 'attr'):
+        if 'fn' not in ev or ev.get('inplace') or ev['fn'] in ('array', 'setattr', 'check.same_image', 'np.copy', 'np.add', 'attr'):
             return False
 
         def shared(v):
@@ -627,7 +672,7 @@ class PurityScenario(Scenario):
             if done[c] and rng.random() < 0.08:
                 src = rng.choice(done[c])
                 if rng.random() < 0.4:
-                    out.append({'env': 'perturb', 'target': '@' + src['id'], 'seed': rng.randrange(10 ** 6), 'unshared': True})
+                    out.append({'env': 'perturb', 'c': c, 'target': '@' + src['id'], 'seed': rng.randrange(10 ** 6), 'unshared': True})
                 d = copy.deepcopy(src)
                 d.setdefault('t', {})['dup_of'] = d['id']
                 d['id'] = d['id'] + 'd%d' % len(out)
@@ -662,6 +707,9 @@ class PurityScenario(Scenario):
                 for c, idx in ((0, i0), (1, i1)):
                     if idx < len(progs[c]):
                         ev = progs[c][idx]
+                        if 'fn' not in ev:
+                            order.append(ev)
+                            continue
                         if ev.get('t', {}).get('seeded'):
                             order.append({'env': 'rng_seed', 'seed': 12345 + idx})
                         order.append(ev)
@@ -680,6 +728,7 @@ class PurityScenario(Scenario):
     def make_fns(self):
         fns = dict(self.fns)
         fns['check.same_image'] = check_same_image
+        fns['check.same_state'] = lambda L, a, b: {'same': Digester(L)(a) == Digester(L)(b)}
         from .optics import h_refit
         fns['h.refit'] = h_refit
         return fns
@@ -761,6 +810,12 @@ class PurityScenario(Scenario):
                 who.add(ev.get('c'))
                 if len(who) > 1:
                     it.probe('shared_dft_shape')
+            if ev['fn'] == 'check.same_state' and out.ok:
+                it.probe('used_vs_fresh')
+                it.probe('check:same_state')
+                if not out.value['same']:
+                    it.violate('C10.path', {'what': 'used-plane-vs-fresh-plane'},
+                               'a plane used before its arrays were updated multiplies differently from a fresh plane in the same state', i)
             if ev['fn'] == 'check.same_image':
                 if out.ok:
                     it.probe('path_pair')
